@@ -237,7 +237,9 @@ Definition sk_set_cre (k : N) (b : bool) (cr : option N) (t : sskel) : sskel :=
   then mkSk (q_key t) (q_state t) (q_need t) (q_deferred t) (q_dc t) (q_holding t) b cr (q_stored t) (q_hh t)
   else t.
 
-Lemma skel_set_detached_nodes g ks b :
+(* without the optional trigger step_node_undefer_reattached, or when nodes are detached (b = true):
+   `deferred` is not written *)
+Lemma skel_set_detached_nodes g ks b : trg_undefer_on_reattach && negb b = false ->
   sks (set_detached_nodes g ks b) = map (sk_set_det ks b) (sks g) /\
   g_files (set_detached_nodes g ks b) =
     map (fun f => if mem_N (f_key f) ks then set_fplace f b (f_creator f) else f) (g_files g) /\
@@ -245,7 +247,7 @@ Lemma skel_set_detached_nodes g ks b :
     map (fun o => if mem_N (o_key o) ks then set_oplace o b (o_creator o) else o) (g_others g) /\
   g_deps (set_detached_nodes g ks b) = g_deps g.
 Proof.
-  unfold set_detached_nodes.
+  intros Hu. unfold set_detached_nodes. rewrite Hu. unfold set_detached_nodes_core.
   match goal with |- context [fold_left ?f ?l ?a] =>
     destruct (same_skel_fold_trigger trg_node_detached l a) as [Hs [Hf [Ho Hd]]] end.
   rewrite Hs, Hf, Ho, Hd. cbn [g_files g_others g_deps]. split; [|auto].
@@ -284,7 +286,7 @@ Proof.
   set (g1 := set_detached_nodes g [k] true).
   set (g1' := with_steps g1 (map (fun s => if s_key s =? k then set_place s true None else s) (g_steps g1))).
   set (g2 := if s_detached s0 then g1' else set_detached_nodes g1' (below g k) true).
-  destruct (skel_set_detached_nodes g [k] true) as [A1 [B1 [C1 D1]]]. fold g1 in A1, B1, C1, D1.
+  destruct (skel_set_detached_nodes g [k] true (andb_false_r _)) as [A1 [B1 [C1 D1]]]. fold g1 in A1, B1, C1, D1.
   assert (A1' : sks g1' = map (sk_set_cre k true None) (sks g1)) by apply skel_set_place.
   assert (H2 : sks g2 = map (sdet S k) (sks g) /\
                g_files g2 = map (fun f => if mem_N (f_key f) (k :: S) then set_fplace f true (f_creator f) else f) (g_files g) /\
@@ -297,7 +299,7 @@ Proof.
         destruct (a1 =? k) eqn:E; cbn -[mem_N]; rewrite ?E; reflexivity.
       + reflexivity.
       + reflexivity.
-    - destruct (skel_set_detached_nodes g1' (below g k) true) as [A2 [B2 [C2 D2]]].
+    - destruct (skel_set_detached_nodes g1' (below g k) true (andb_false_r _)) as [A2 [B2 [C2 D2]]].
       rewrite A2, B2, C2, D2, A1', A1. unfold g1'. cbn [g_files g_others g_deps with_steps]. rewrite B1, C1, D1.
       split; [|split; [|split; [|reflexivity]]].
       + rewrite !map_map. apply map_ext. intros [a1 a2 a3 a4 a5 a6 a7 a8 a9 a10].
@@ -334,7 +336,7 @@ Proof.
   intros E0 Ec S. unfold detach_file. rewrite E0, Ec.
   set (g1 := set_detached_nodes g [k] true).
   set (g1' := with_files g1 (map (fun f => if f_key f =? k then set_fplace f true None else f) (g_files g1))).
-  destruct (skel_set_detached_nodes g [k] true) as [A1 [B1 [C1 D1]]]. fold g1 in A1, B1, C1, D1.
+  destruct (skel_set_detached_nodes g [k] true (andb_false_r _)) as [A1 [B1 [C1 D1]]]. fold g1 in A1, B1, C1, D1.
   unfold S. destruct (f_detached f0).
   - unfold g1'. cbn [g_files g_others g_deps with_files]. unfold sks in *. cbn [g_steps with_files].
     rewrite A1, B1, C1, D1. split; [|split; [|split; [|reflexivity]]].
@@ -342,7 +344,7 @@ Proof.
     + rewrite map_map. apply map_ext. intros [b1 b2 b3 b4 b5 b6]. unfold fdet. cbn -[mem_N]. rewrite ?mem_single.
       destruct (b1 =? k) eqn:E; cbn -[mem_N]; rewrite ?E; reflexivity.
     + reflexivity.
-  - destruct (skel_set_detached_nodes g1' (below g k) true) as [A2 [B2 [C2 D2]]].
+  - destruct (skel_set_detached_nodes g1' (below g k) true (andb_false_r _)) as [A2 [B2 [C2 D2]]].
     rewrite A2, B2, C2, D2. unfold g1'. cbn [g_files g_others g_deps with_files]. unfold sks in *. cbn [g_steps with_files].
     rewrite A1, B1, C1, D1. split; [|split; [|split; [|reflexivity]]].
     + rewrite map_map. apply map_ext. intros [a1 a2 a3 a4 a5 a6 a7 a8 a9 a10]. unfold sk_set_det. cbn -[mem_N].
@@ -398,15 +400,15 @@ Lemma skel_delete_file g k :
 Proof. unfold delete_file. auto. Qed.
 
 (* ---- UPDATE node SET creator, detached on a file node ---- *)
-Lemma skel_place_file g k cr det f0 : find_file g k = Some f0 ->
+Lemma skel_place_file g k cr det f0 : trg_undefer_on_reattach && negb det = false -> find_file g k = Some f0 ->
   sks (place_file g k cr det) = map (sk_set_det [k] det) (sks g) /\
   g_files (place_file g k cr det) = map (fun f => if f_key f =? k then set_fplace f det cr else f) (g_files g) /\
   g_others (place_file g k cr det) =
     map (fun o => if mem_N (o_key o) [k] then set_oplace o det (o_creator o) else o) (g_others g) /\
   g_deps (place_file g k cr det) = g_deps g.
 Proof.
-  intros E0. unfold place_file. rewrite E0.
-  destruct (skel_set_detached_nodes g [k] det) as [A [B [C D]]].
+  intros Hu E0. unfold place_file. rewrite E0.
+  destruct (skel_set_detached_nodes g [k] det Hu) as [A [B [C D]]].
   cbn [g_files g_others g_deps with_files]. unfold sks in *. cbn [g_steps with_files].
   rewrite A, B, C, D. split; [reflexivity|]. split; [|auto].
   rewrite map_map. apply map_ext. intros [b1 b2 b3 b4 b5 b6]. cbn -[mem_N]. rewrite mem_single.
@@ -414,7 +416,7 @@ Proof.
 Qed.
 
 (* ---- Step.reattach ---- *)
-Lemma skel_reattach_step g k c cdet :
+Lemma skel_reattach_step g k c cdet : trg_undefer_on_reattach && negb cdet = false ->
   let S := below g k in
   sks (reattach_step g k c cdet) =
     map (fun t => if q_key t =? k
@@ -427,17 +429,17 @@ Lemma skel_reattach_step g k c cdet :
     map (fun o => if mem_N (o_key o) (k :: S) then set_oplace o cdet (o_creator o) else o) (g_others g) /\
   g_deps (reattach_step g k c cdet) = g_deps g.
 Proof.
-  intros S. unfold reattach_step.
+  intros Hu S. unfold reattach_step.
   set (g0 := set_detached_nodes g [k] cdet).
   set (g1 := with_steps g0 (map (fun s => if s_key s =? k then set_place s cdet (Some c) else s) (g_steps g0))).
-  destruct (skel_set_detached_nodes g [k] cdet) as [A0 [B0 [C0 D0]]]. fold g0 in A0, B0, C0, D0.
+  destruct (skel_set_detached_nodes g [k] cdet Hu) as [A0 [B0 [C0 D0]]]. fold g0 in A0, B0, C0, D0.
   assert (A1 : sks g1 = map (sk_set_cre k cdet (Some c)) (sks g0)) by apply skel_set_place.
   assert (Hb : below g1 k = below g k).
   { destruct (drel_set_detached k g [k] cdet) as [F1 [H1 [O1 R1]]].
     destruct (drel_set_place k g0 cdet (Some c)) as [F2 [H2 [O2 R2]]].
     eapply below_drel. eapply drel_trans; [exists F1, H1, O1; exact R1 | exists F2, H2, O2; exact R2]. }
   rewrite Hb. fold S.
-  destruct (skel_set_detached_nodes g1 S cdet) as [A2 [B2 [C2 D2]]].
+  destruct (skel_set_detached_nodes g1 S cdet Hu) as [A2 [B2 [C2 D2]]].
   destruct (same_skel_flag_with_products (set_detached_nodes g1 S cdet) k) as [A3 [B3 [C3 D3]]].
   rewrite A3, B3, C3, D3, A2, B2, C2, D2, A1, A0. unfold g1. cbn [g_files g_others g_deps with_steps].
   rewrite B0, C0, D0. split; [|split; [|split; [|reflexivity]]].
